@@ -21,18 +21,40 @@ type ringTarget struct {
 	slotAddr           []unsafe.Pointer
 	err                string
 	initPanic          bool
+	// re-configuration provenance (WAVE4 class 4): the other ring value of the pair
+	// (template the ring under test was copied from before its own Init, or the origin
+	// that was re-initialised after the ring under test was copied from it) and what it
+	// must still contain
+	other *ringz.SyncRing[int]
 }
 
 func newRingTarget(capreq int, warp uint64, fill int) (t *ringTarget) {
+	var r ringz.SyncRing[int]
+	t = newRingTargetFrom(&r, func() { r = ringz.NewSync[int](capreq) })
+	if t.initPanic || t.err != "" {
+		return t
+	}
+	if warp != 0 {
+		t.shift(uint32(warp))
+	}
+	for v := 1; v <= fill; v++ {
+		t.r.Push(v)
+	}
+	return t
+}
+
+// newRingTargetFrom: `prepare` puts *r into its initial configuration (it may panic);
+// then the addresses of the counters and sequence numbers are taken.
+func newRingTargetFrom(r *ringz.SyncRing[int], prepare func()) (t *ringTarget) {
 	t = &ringTarget{}
 	func() {
 		defer func() {
-			if r := recover(); r != nil {
+			if x := recover(); x != nil {
 				t.initPanic = true
 			}
 		}()
-		r := ringz.NewSync[int](capreq)
-		t.r = &r
+		prepare()
+		t.r = r
 	}()
 	if t.initPanic {
 		return t
@@ -54,12 +76,6 @@ func newRingTarget(capreq int, warp uint64, fill int) (t *ringTarget) {
 			return t
 		}
 		t.slotAddr = append(t.slotAddr, unsafe.Pointer(p.UnsafeAddr()))
-	}
-	if warp != 0 {
-		t.shift(uint32(warp))
-	}
-	for v := 1; v <= fill; v++ {
-		t.r.Push(v)
 	}
 	return t
 }
@@ -165,7 +181,7 @@ func (t *ringTarget) Final() string {
 		}
 		vs = append(vs, strconv.Itoa(v))
 	}
-	return fmt.Sprintf("final len=%d empty=%v full=%v [%s]", n, e, f, strings.Join(vs, " "))
+	return fmt.Sprintf("final len=%d empty=%v full=%v [%s]%s", n, e, f, strings.Join(vs, " "), t.finalOther())
 }
 
 type header struct {
@@ -173,10 +189,30 @@ type header struct {
 	warp   uint64
 	fill   int
 	progs  [][]string
+	// provenance of the ring under test (0 = NewSync):
+	//  1: tmpl := NewSync(pcap); Push 9001..9000+pfill; r := tmpl (struct copy); r.Init(capreq)
+	//     — r is under test, tmpl must keep its elements
+	//  2: r0 := NewSync(capreq) (+warp, fill); backlog := r0; r0.Init(pcap)
+	//     — backlog is under test, r0 must be a fresh empty ring
+	prov, pcap, pfill int
 }
 
 func (h header) String() string {
+	if h.prov != 0 {
+		return fmt.Sprintf("@ C01 ringc %d %d %d %d %d %d%s", h.prov, h.pcap, h.pfill, h.capreq, h.warp, h.fill, drive.FmtProgs(h.progs))
+	}
 	return fmt.Sprintf("@ C01 ring %d %d %d%s", h.capreq, h.warp, h.fill, drive.FmtProgs(h.progs))
+}
+
+// what the other ring of a provenance pair must contain when the case ends
+func (h header) otherWant() []int {
+	w := []int{}
+	if h.prov == 1 {
+		for v := 1; v <= h.pfill && v <= effCap(h.pcap); v++ {
+			w = append(w, 9000+v)
+		}
+	}
+	return w
 }
 
 // effective capacity as Init computes it (for the oracle's bounded-queue spec)
@@ -193,6 +229,16 @@ func effCap(capreq int) int {
 
 func parseHeader(line string) (h header, ok bool) {
 	t := strings.Fields(line)
+	if len(t) >= 9 && t[0] == "@" && t[1] == "C01" && t[2] == "ringc" {
+		var e1, e2, e3 error
+		h.prov, e1 = strconv.Atoi(t[3])
+		h.pcap, e2 = strconv.Atoi(t[4])
+		h.pfill, e3 = strconv.Atoi(t[5])
+		if e1 != nil || e2 != nil || e3 != nil || (h.prov != 1 && h.prov != 2) || h.pcap < 1 || h.pcap > 1<<16 || h.pfill < 0 || h.pfill > 1<<16 {
+			return h, false
+		}
+		t = append([]string{"@", "C01", "ring"}, t[6:]...)
+	}
 	if len(t) < 6 || t[0] != "@" || t[1] != "C01" || t[2] != "ring" {
 		return h, false
 	}
@@ -233,7 +279,20 @@ func factory(h header) drive.Factory {
 }
 
 func newTarget(h header) *ringTarget {
-	t := newRingTarget(h.capreq, 0, 0)
+	var t *ringTarget
+	switch h.prov {
+	case 1:
+		// the ring under test is a struct copy of a used template, then Init-ed
+		tmpl := ringz.NewSync[int](h.pcap)
+		for v := 1; v <= h.pfill; v++ {
+			tmpl.Push(9000 + v)
+		}
+		r := tmpl
+		t = newRingTargetFrom(&r, func() { r.Init(h.capreq) })
+		t.other = &tmpl
+	default:
+		t = newRingTarget(h.capreq, 0, 0)
+	}
 	if t.initPanic || t.err != "" {
 		return t
 	}
@@ -243,7 +302,70 @@ func newTarget(h header) *ringTarget {
 	for v := 1; v <= h.fill; v++ {
 		t.r.Push(v)
 	}
+	if h.prov == 2 {
+		// the ring under test is the copy taken before its origin was re-initialised
+		backlog := *t.r
+		origin := t.r
+		panicked := false
+		func() {
+			defer func() {
+				if recover() != nil {
+					panicked = true
+				}
+			}()
+			origin.Init(h.pcap)
+		}()
+		if panicked {
+			t.initPanic = true
+			return t
+		}
+		t2 := newRingTargetFrom(&backlog, func() {})
+		t2.other = origin
+		return t2
+	}
 	return t
+}
+
+// Final of a provenance pair: the other ring value is observed as well (content in
+// order, then a fill/refuse/drain cycle on it).
+func (t *ringTarget) finalOther() string {
+	if t.other == nil {
+		return ""
+	}
+	var vs []string
+	probe := "ok"
+	func() {
+		defer func() {
+			if recover() != nil {
+				probe = "panic"
+			}
+		}()
+		for k := 0; k < t.other.Cap()+2; k++ {
+			v, ok := t.other.Pop()
+			if !ok {
+				break
+			}
+			vs = append(vs, strconv.Itoa(v))
+		}
+		c := t.other.Cap()
+		for i := 0; i < c && probe == "ok"; i++ {
+			if !t.other.Push(500 + i) {
+				probe = fmt.Sprintf("push-%d-refused", i+1)
+			}
+		}
+		if probe == "ok" && (t.other.Push(999) || !t.other.IsFull() || t.other.Len() != c) {
+			probe = "not-full-after-cap-pushes"
+		}
+		for i := 0; i < c && probe == "ok"; i++ {
+			if v, ok := t.other.Pop(); !ok || v != 500+i {
+				probe = fmt.Sprintf("pop-%d-returned-%d-%v", i+1, v, ok)
+			}
+		}
+		if probe == "ok" && (!t.other.IsEmpty() || t.other.Len() != 0) {
+			probe = "not-empty-after-drain"
+		}
+	}()
+	return fmt.Sprintf(" other=[%s] probe=%s", strings.Join(vs, " "), probe)
 }
 
 // ExtraLine: `warp <k>` advances all counters / sequence numbers by k (a multiple of
